@@ -88,4 +88,6 @@ def check(model: Model, tier: str):
         obs.append(Ob("E3-PARAM", f"{fn}:E3-PARAM:{p}", VIOLATED if effs else OK, effs[0].where if effs else model.where(fo), p,
                       f"the initial guess `{p}` is written: {effs[0].construct} in {effs[0].func}" if effs else "initial guess not written"))
     obs += rules.rule_unres(model, [model.func(a) for a in ANCHORS if "python" not in a])
+    from ..e5 import obligations as e5ob
+    obs += e5ob.for_property(model, "C11", tier)
     return obs, {"functions": ANCHORS}
